@@ -63,6 +63,14 @@ pub struct BuildSpec {
     pub fsize_limit: Option<u64>,
     /// "crash" (SIGXFSZ kills the process mid-write) or "error" (write returns EFBIG)
     pub fsize_mode: Option<String>,
+    /// builds (to other output paths) this process performs *first*: what a build.rs with several
+    /// grammars does. Their outcome is ignored; the build proper must not notice them.
+    #[serde(default)]
+    pub prelude: Vec<BuildSpec>,
+    /// after the build, create the lexer at run time from the same source and flags and lex this
+    /// text: the result goes to `BuildResult::lex_dump`
+    #[serde(default)]
+    pub lex_probe: Option<String>,
 }
 
 #[derive(Serialize, Deserialize, Clone, Debug, Default)]
@@ -74,6 +82,8 @@ pub struct BuildResult {
     pub regenerated: Option<bool>,
     /// CTParser::regenerated(), when the flow exposes it
     pub reported_regenerated: Option<bool>,
+    #[serde(default)]
+    pub lex_dump: Option<String>,
 }
 
 pub fn yacckind_of(s: &str) -> Option<YaccKind> {
@@ -141,22 +151,75 @@ pub fn main(spec_path: &str, result_path: &str) -> i32 {
         }
     }
     std::panic::set_hook(Box::new(|_| {}));
+    for pre in &spec.prelude {
+        let pre = pre.clone();
+        let _ = std::panic::catch_unwind(move || {
+            let _ = run(&pre);
+            let _ = lex_probe(&pre);
+        });
+    }
     let spec2 = spec.clone();
     let r = std::panic::catch_unwind(move || run(&spec2));
+    let spec3 = spec.clone();
+    let lex_dump = std::panic::catch_unwind(move || lex_probe(&spec3)).unwrap_or(Some("probe panicked".into()));
     // lift the limit so that the (small) result file can always be written
     unsafe {
         libc::signal(libc::SIGXFSZ, libc::SIG_IGN);
     }
     let res = match r {
-        Ok(Ok((regen, rep))) => BuildResult { ok: true, error: String::new(), panicked: false, regenerated: Some(regen), reported_regenerated: rep },
-        Ok(Err(e)) => BuildResult { ok: false, error: e, panicked: false, regenerated: None, reported_regenerated: None },
-        Err(_) => BuildResult { ok: false, error: "builder panicked".into(), panicked: true, regenerated: None, reported_regenerated: None },
+        Ok(Ok((regen, rep))) => BuildResult { ok: true, error: String::new(), panicked: false, regenerated: Some(regen), reported_regenerated: rep, lex_dump },
+        Ok(Err(e)) => BuildResult { ok: false, error: e, panicked: false, regenerated: None, reported_regenerated: None, lex_dump },
+        Err(_) => BuildResult { ok: false, error: "builder panicked".into(), panicked: true, regenerated: None, reported_regenerated: None, lex_dump },
     };
     // The result travels through stdout: a pipe is not subject to RLIMIT_FSIZE.
     let _ = result_path;
     let js = serde_json::to_string(&res).unwrap();
     println!("BUILD-RESULT {js}");
     0
+}
+
+/// The lexer created at run time from the spec's lexer source and flags, run over the probe text.
+fn lex_probe(spec: &BuildSpec) -> Option<String> {
+    use lrpar::{Lexeme, Lexer};
+    let probe = spec.lex_probe.as_ref()?;
+    let src = std::fs::read_to_string(&spec.lexer_path).ok()?;
+    let mut flags = lrlex::DEFAULT_LEX_FLAGS;
+    let l = &spec.lexer;
+    if l.case_insensitive.is_some() {
+        flags.case_insensitive = l.case_insensitive;
+    }
+    if l.dot_matches_new_line.is_some() {
+        flags.dot_matches_new_line = l.dot_matches_new_line;
+    }
+    for (k, v) in &l.extra {
+        let f = Some(v == "true");
+        match k.as_str() {
+            "multi_line" => flags.multi_line = f,
+            "octal" => flags.octal = f,
+            "posix_escapes" => flags.posix_escapes = f,
+            "swap_greed" => flags.swap_greed = f,
+            "ignore_whitespace" => flags.ignore_whitespace = f,
+            "unicode" => flags.unicode = f,
+            _ => {}
+        }
+    }
+    let def = match lrlex::LRNonStreamingLexerDef::<DefaultLexerTypes<u32>>::new_with_options(&src, flags) {
+        Ok(d) => d,
+        Err(_) => return Some("lexer source rejected".into()),
+    };
+    use lrlex::LexerDef;
+    let lexer = def.lexer(probe);
+    let mut out = String::new();
+    for r in lexer.iter() {
+        match r {
+            Ok(lx) => out.push_str(&format!("{}@{}+{} ", lx.tok_id(), lx.span().start(), lx.span().len())),
+            Err(e) => {
+                use lrpar::LexError;
+                out.push_str(&format!("ERR@{} ", e.span().start()));
+            }
+        }
+    }
+    Some(out)
 }
 
 macro_rules! impl_build {
